@@ -196,6 +196,31 @@ m('c13-shared-ns-from-config', 'C13', 'chain.py', "            namespace = '::'.
 m('c13-registry-key-no-slug', 'C13', 'chain.py', "            key = task.slugname, task.name_for_persistence\n", "            key = task.name_for_persistence\n")
 m('c13-force-kwargs-dropped', 'C13', 'chain.py', "        for chain in self.chains.values():\n            chain.force(tasks, **kwargs)", "        for chain in self.chains.values():\n            chain.force(tasks)")
 
+# ---- C03 -----------------------------------------------------------------------------------------------
+m('c03-short-digest', 'C03', 'chain.py', ".hexdigest()[:32]", ".hexdigest()[:2]")
+m('c03-list-by-length', 'C03', 'utils/clazz.py', "        return '[' + ', '.join(repr_from_instantiation(val) for val in obj) + ']'", "        return f'[{len(obj)} items]' if len(obj) > 2 else '[' + ', '.join(repr_from_instantiation(val) for val in obj) + ']'")
+m('c03-inputs-not-hashed', 'C03', 'chain.py', "return sha256(f'{parameter_repr}$$${input_tasks_repr}'.encode()).hexdigest()[:32]", "return sha256(f'{parameter_repr}$$$'.encode()).hexdigest()[:32]")
+m('c03-object-args-dropped', 'C03', 'parameter.py', "        args_repr = ', '.join(f'{k}={repr(v)}' for k, v in sorted(args.items()))", "        args_repr = ', '.join(f'{k}' for k, v in sorted(args.items()))")
+m('c03-dict-values-dropped', 'C03', 'utils/clazz.py', "f\"{repr_from_instantiation(key)}: {repr_from_instantiation(val)}\" for key, val in sorted(obj.items())", "f\"{repr_from_instantiation(key)}\" for key, val in sorted(obj.items())")
+m('c03-str-strip', 'C03', 'utils/clazz.py', "        return f\"'{obj}'\"", "        return f\"'{obj.strip()}'\"")
+# (equivalent under the property's exclusions, removed) 
+# (equivalent under the property's exclusions, removed) 
+# (equivalent under the property's exclusions, removed) 
+m('c03-value-repr-truncated', 'C03', 'parameter.py', "        return repr_from_instantiation(self.value)", "        return repr_from_instantiation(self.value)[:200]")
+
+# ---- C02 -----------------------------------------------------------------------------------------------
+m('c02-unsorted-params', 'C02', 'parameter.py', "        for name, parameter in sorted(self._parameters.items()):", "        for name, parameter in self._parameters.items():")
+m('c02-config-name-in-key', 'C02', 'chain.py', "return sha256(f'{parameter_repr}$$${input_tasks_repr}'.encode()).hexdigest()[:32]", "return sha256(f'{self.original_config.name}{parameter_repr}$$${input_tasks_repr}'.encode()).hexdigest()[:32]")
+m('c02-namespace-in-key', 'C02', 'chain.py', "                _name = _name[len(outer_namespace) + 2 :]", "                pass")
+m('c02-ignored-persisted', 'C02', 'parameter.py', "        if self.ignore_persistence:\n            return None\n", "")
+m('c02-default-persisted', 'C02', 'parameter.py', "        if self.dont_persist_default_value and self.value == self.default:\n            return None\n", "")
+m('c02-substituted-repr', 'C02', 'utils/data.py', "            return ReprStr(new_string, string)", "            return ReprStr(new_string, new_string)")
+m('c02-dict-unsorted', 'C02', 'utils/clazz.py', "for key, val in sorted(obj.items())", "for key, val in obj.items()")
+m('c02-optional-absent-in-key', 'C02', 'chain.py', "            if isinstance(task, Task)\n        }", "            if isinstance(task, Task)\n        }\n        self.input_tasks.update({name: 'absent' for name, task in original_task.input_tasks.items() if not isinstance(task, Task)})")
+m('c02-context-marks-key', 'C02', 'chain.py', "return sha256(f'{parameter_repr}$$${input_tasks_repr}'.encode()).hexdigest()[:32]", "return sha256(f'{parameter_repr}$$${input_tasks_repr}{\"ctx\" if self.context is not None else \"\"}'.encode()).hexdigest()[:32]")
+m('c02-input-order-declared', 'C02', 'chain.py', "for n, it in sorted(self.input_tasks.items()))", "for n, it in self.input_tasks.items())")
+m('c02-ns-replace-all', 'C02', 'chain.py', "                _name = _name[len(outer_namespace) + 2 :]", "                _name = _name.replace(f'{outer_namespace}::', '')")
+
 
 def make_scratch():
     d = Path(tempfile.mkdtemp(prefix='tcmut-'))
